@@ -660,6 +660,10 @@ def run(ctx, chk, tier):
     # the one-ulp end points back onto the extreme scores)
     from . import c01 as _c01b
     _c01b.cm_cells_rule(ctx, chk)
+    # the bands are Scores.bootstrap_ci of the joint statistic AT THE CALLER'S alpha: replicate loop and CI assembly (replicates, point estimate,
+    # alpha, configured method) of bootstrap_metric / bootstrap_ci are the obligations of C14
+    from . import c14 as _c14
+    _c14.run(ctx, chk, tier)
     for q in BANDS:
         fn = ctx.db.function(q)
         k, finds = lint(fn.node)
